@@ -33,5 +33,11 @@ pub(crate) fn pad_deconvolution(signal: &[f64]) -> Vec<f64> {
     ls_deconvolution(signal, &PAD_RESPONSE, 3..=5, 7..=12)
 }
 
+// Verification hook (only compiled with `--cfg alpha_g_verif`).
+#[cfg(alpha_g_verif)]
+pub(crate) fn verif_pad_response() -> Vec<f64> {
+    PAD_RESPONSE.clone()
+}
+
 #[cfg(test)]
 mod tests;
